@@ -171,14 +171,14 @@ func c07hGen(rng *rand.Rand, tier string) []core.Spec {
 func hsExecGuarded(s core.Spec) (e core.Exec) {
 	defer func() {
 		if r := recover(); r != nil {
-			e = core.Exec{Tape: "12 998", Tags: []string{"PANIC"}, Nontrivial: true}
+			e = core.Exec{Tape: "70 1 0 0 1", Tags: []string{"PANIC"}, Nontrivial: true}
 		}
 	}()
 	done := make(chan core.Exec, 1)
 	go func() {
 		defer func() {
 			if r := recover(); r != nil {
-				done <- core.Exec{Tape: "12 998", Tags: []string{"PANIC"}, Nontrivial: true}
+				done <- core.Exec{Tape: "70 1 0 0 1", Tags: []string{"PANIC"}, Nontrivial: true}
 			}
 		}()
 		done <- hsExec(s)
@@ -187,7 +187,7 @@ func hsExecGuarded(s core.Spec) (e core.Exec) {
 	case x := <-done:
 		return x
 	case <-time.After(15 * time.Second):
-		return core.Exec{Tape: "12 997", Tags: []string{"HUNG"}, Nontrivial: true}
+		return core.Exec{Tape: "70 0 1 0 1", Tags: []string{"HUNG"}, Nontrivial: true}
 	}
 }
 
@@ -212,6 +212,14 @@ func init() {
 		Exec:    hsExecGuarded,
 		Decode:  decodeHS,
 		Shrink:  shrinkHS,
-		Clauses: hsClauses,
+		Clauses: c07hClauses(),
 	})
+}
+
+func c07hClauses() map[int]string {
+	m := map[int]string{50: "panic", 51: "no return within 15 s"}
+	for k, v := range hsClauses {
+		m[k] = v
+	}
+	return m
 }
